@@ -170,7 +170,20 @@ func bad(format string, args ...any) error {
 // a first offset that differs from the fixed-part length, decreasing or out-of-scope offsets,
 // lists over their limit, bitlists without delimiter or over limit, non-canonical booleans,
 // padding bits set in bitvectors, and element-count/size mismatches.
-func Deserialize(t *Type, b []byte) (any, error) {
+func Deserialize(t *Type, b []byte) (any, error) { return deserialize(t, b, &Lenient{}) }
+
+// Lenient switches off individual checks of the strict decoder that lie OUTSIDE the three
+// refusal classes property C04 names (truncation, over-limit, inconsistent offsets). Used by
+// the differential fuzz oracle: an input the library accepts must at least decode under the
+// leniencies the library is known (and allowed) to have.
+type Lenient struct {
+	DirtyBool        bool // any byte value >1 reads as true
+	BitvectorPadding bool // padding bits of a bitvector may be set
+}
+
+func DeserializeLenient(t *Type, b []byte, o Lenient) (any, error) { return deserialize(t, b, &o) }
+
+func deserialize(t *Type, b []byte, o *Lenient) (any, error) {
 	switch t.Kind {
 	case KUint:
 		if uint64(len(b)) != uint64(t.Bits/8) {
@@ -191,10 +204,10 @@ func Deserialize(t *Type, b []byte) (any, error) {
 			return u, nil
 		}
 	case KBool:
-		if len(b) != 1 || b[0] > 1 {
+		if len(b) != 1 || (b[0] > 1 && !o.DirtyBool) {
 			return nil, bad("bool")
 		}
-		return b[0] == 1, nil
+		return b[0] != 0, nil
 	case KBytesN:
 		if uint64(len(b)) != t.N {
 			return nil, bad("bytes%d got %d", t.N, len(b))
@@ -213,7 +226,7 @@ func Deserialize(t *Type, b []byte) (any, error) {
 		for i := range out {
 			out[i] = b[i/8]&(1<<uint(i%8)) != 0
 		}
-		if t.N%8 != 0 && b[len(b)-1]>>(t.N%8) != 0 {
+		if t.N%8 != 0 && b[len(b)-1]>>(t.N%8) != 0 && !o.BitvectorPadding {
 			return nil, bad("bitvector padding bits set")
 		}
 		return out, nil
@@ -256,7 +269,7 @@ func Deserialize(t *Type, b []byte) (any, error) {
 			}
 			out := make([]any, n)
 			for i := uint64(0); i < n; i++ {
-				e, err := Deserialize(t.Elem, b[i*es:(i+1)*es])
+				e, err := deserialize(t.Elem, b[i*es:(i+1)*es], o)
 				if err != nil {
 					return nil, err
 				}
@@ -295,7 +308,7 @@ func Deserialize(t *Type, b []byte) (any, error) {
 			if offs[i] > offs[i+1] || offs[i+1] > uint64(len(b)) {
 				return nil, bad("%s: offsets not monotonic / out of scope at %d", t, i)
 			}
-			e, err := Deserialize(t.Elem, b[offs[i]:offs[i+1]])
+			e, err := deserialize(t.Elem, b[offs[i]:offs[i+1]], o)
 			if err != nil {
 				return nil, err
 			}
@@ -321,7 +334,7 @@ func Deserialize(t *Type, b []byte) (any, error) {
 		for i, f := range t.Fields {
 			if f.T.IsFixed() {
 				sz := f.T.FixedSize()
-				e, err := Deserialize(f.T, b[pos:pos+sz])
+				e, err := deserialize(f.T, b[pos:pos+sz], o)
 				if err != nil {
 					return nil, fmt.Errorf("%s.%s: %w", t, f.Name, err)
 				}
@@ -347,7 +360,7 @@ func Deserialize(t *Type, b []byte) (any, error) {
 			if offs[k] > offs[k+1] || offs[k+1] > uint64(len(b)) {
 				return nil, bad("%s: offsets not monotonic / out of scope at field %s", t, t.Fields[i].Name)
 			}
-			e, err := Deserialize(t.Fields[i].T, b[offs[k]:offs[k+1]])
+			e, err := deserialize(t.Fields[i].T, b[offs[k]:offs[k+1]], o)
 			if err != nil {
 				return nil, fmt.Errorf("%s.%s: %w", t, t.Fields[i].Name, err)
 			}
